@@ -30,7 +30,8 @@ GRAPHS = {
     # name: list of (link, start, end)
     'chain-parallel': [('a', 'A', 'B'), ('b', 'B', 'C'), ('c', 'C', 'B'), ('d', 'C', 'D')],
     'loop-deadend': [('a', 'A', 'B'), ('b', 'B', 'C'), ('c', 'C', 'A'), ('d', 'C', 'D'), ('e', 'D', 'E')],
-    'star': [('a', 'H', 'A'), ('b', 'H', 'B'), ('c', 'C', 'H'), ('d', 'A', 'B')],
+    # names that contain the internal 'N_' / 'L_' prefixes of valve_segments (and begin with them)
+    'star': [('MILL_1', 'TOWN_1', 'N_A'), ('L_b', 'TOWN_1', 'B'), ('c', 'C', 'TOWN_1'), ('d', 'N_A', 'B')],
     'two-components': [('a', 'A', 'B'), ('b', 'B', 'A'), ('c', 'C', 'D')],
 }
 
@@ -181,7 +182,7 @@ def replay_partition(i):
 RATIO_CASES = [
     ('loop-deadend', [('d', 'C'), ('a', 'B'), ('e', 'E')]),
     ('chain-parallel', [('a', 'B'), ('b', 'B'), ('d', 'C')]),          # valve on b is by-passed by the parallel link c
-    ('star', [('a', 'H'), ('b', 'H'), ('c', 'H'), ('d', 'A')]),
+    ('star', [('MILL_1', 'TOWN_1'), ('L_b', 'TOWN_1'), ('c', 'TOWN_1'), ('d', 'N_A')]),
 ]
 
 
